@@ -37,9 +37,10 @@ def opsEntities (op : String) (j : Json) : Option (Except String Json) :=
       | .error e => pure (rejToJson e)
       | .ok ents' =>
         let m := namePaths root [] survey
-        match convert root (fun s => substRefs m s.length s) ents' survey with
+        let nsp : Option Str := match j.getObjVal? "namespaces" with | .ok (.str x) => some x.toList | _ => none
+        match convert root (fun s => substRefs m s.length s) nsp ents' survey with
         | .error e => pure (rejToJson e)
-        | .ok o => pure (outToJson o)
+        | .ok o => pure ((outToJson o).setObjVal! "customNs" (pairsToJson (customNs nsp !ents'.isEmpty)))
   | "entities.spec" => some do
       let root := getStrD j "root" "data"
       let ents ← rowsOfJson j "entities"
